@@ -46,7 +46,14 @@ func (FingerprintAttr) AddTo(m *Message) error {
 	m.Length += fingerprintSize + attributeHeaderSize // increasing length
 	m.WriteLength()                                   // writing Length to Raw
 	b := make([]byte, fingerprintSize)
-	val := FingerprintValue(m.Raw)
+	// The attribute is placed right after the declared message (Add cuts
+	// Raw there), so only those bytes are covered, not what a decoded
+	// datagram may carry after its declared length.
+	end := messageHeaderSize + int(l)
+	if end > len(m.Raw) {
+		end = len(m.Raw)
+	}
+	val := FingerprintValue(m.Raw[:end])
 	bin.PutUint32(b, val)
 	m.Length = l
 	m.Add(AttrFingerprint, b)
